@@ -511,17 +511,17 @@ theorem loadHistory_secondStore (rn : String) (cs : List Node) (hflat : noNested
   have hflat' : noNested (.dir rn cs (some ((firstStore w).add w₂))) = true := hflat
   rw [findChildren_noNested _ [] hflat']
   have hchk : checkStore (some ((firstStore w).add w₂)) = .ok () := by
-    by_cases hn : w.gen.fileName = w₂.gen.fileName
-    · simp [checkStore, firstStore, HistStore.add, checkChain, hstate1, hn, pure, Except.pure, bind, Except.bind]
-    · have hn' : (w.gen.fileName == w₂.gen.fileName) = false := by simpa using hn
-      simp [checkStore, firstStore, HistStore.add, checkChain, hstate1, hstate2, hn', pure, Except.pure, bind,
-        Except.bind]
+    have hn : ¬ w.gen.fileName = w₂.gen.fileName := by
+      intro h; rw [h, hparse2] at hparse1; cases hparse1
+    have hn' : ¬ w₂.gen.fileName = w.gen.fileName := fun h => hn h.symm
+    simp [checkStore, firstStore, HistStore.add, checkChain, hstate1, hstate2, hn, hn', pure, Except.pure, bind,
+      Except.bind]
   have hg1 : loadGens (firstStore w) = [⟨1, w.gen⟩] := by
-    have := MhlProps.C06.loadGens_add {} w 1 hparse1 hstate1 (by simp [loadGens])
+    have := MhlProps.C06.loadGens_add_lt {} w 1 hparse1 hstate1 (by simp [loadGens])
     rw [firstStore, this]
     rfl
   have hg : loadGens ((firstStore w).add w₂) = [⟨1, w.gen⟩, ⟨2, w₂.gen⟩] := by
-    rw [MhlProps.C06.loadGens_add (firstStore w) w₂ 2 hparse2 hstate2 (by rw [hg1]; simp), hg1]
+    rw [MhlProps.C06.loadGens_add_lt (firstStore w) w₂ 2 hparse2 hstate2 (by rw [hg1]; simp), hg1]
     rfl
   simp only [Node.hist, hchk, bind, Except.bind, pure, Except.pure, buildHist, hg]
   rfl
